@@ -1,5 +1,6 @@
 //! Engine B: world generator + in-process drivers for all generators.
 mod backends;
+mod c12;
 mod c13;
 mod c15;
 mod c16;
@@ -10,6 +11,7 @@ mod c30;
 mod c31;
 mod c32;
 mod c33;
+mod wasmbuild;
 
 use proptest::prelude::*;
 use serde::{Deserialize, Serialize};
@@ -36,6 +38,7 @@ fn main() {
     }
     let mut check = vcommon::Check::new(&args);
     match args.id.as_str() {
+        "C12" => c12::run(&mut check),
         "C13" => c13::run(&mut check),
         "C15" => c15::run(&mut check),
         "C16" => c16::run(&mut check),
